@@ -9,7 +9,9 @@
      rows G anc      the samples' (data, ancestry) rows
      hap_okb / hap_presentb   every variant and allele / every variant of the haplotype exists in G
      spec_col / spec_mat      the cell-by-cell specification as a column / matrix *)
-From HV Require Import Prelude Tracts C04_Model C04_Check C04_Proofs C04_ProofsSet C04_ProofsFile C04_ProofsSpec C04_ProofsAnc C04_Legacy C04_ProofsPerm.
+From HV Require Import Prelude Tracts C04_Model C04_Check C04_CheckSeq C04_Proofs C04_ProofsSet C04_ProofsFile C04_ProofsSpec
+  C04_ProofsAnc C04_Legacy C04_ProofsPerm C04_ProofsDup C04_ProofsSeq C04_ProofsBp C04_ProofsOrder C04_ProofsTotal.
+From HV Require C05_Model.
 From Coq Require Import Permutation.
 
 (* -- meaning of the two look-ups the statements are phrased with ------------------------- *)
@@ -301,3 +303,227 @@ Example C04_vline_order_example :
   /\ hap_transform_anc (mkh 10 1 10 21 8 [mkhv 4 7; mkhv 1 3] false) G_ex = Ok [(true, false); (false, true)].
 Proof. vm_compute. repeat split; reflexivity. Qed.
 Print Assumptions C04_vline_order_example.
+
+(* ============================================================================================================
+   Added in the strengthening round.  Further vocabulary:
+     dup_ids G            two records of the genotype object share an ID
+     single_tr / set_tr   the single-haplotype / whole-set transform (plain or ancestry, by the boolean)
+     phap, hap_of         a haplotype whose V lines carry their positions; its plain form
+     op, apply_op, run_ops  Haplotypes.sort / Haplotype.sort / Haplotypes.subset / Haplotypes.read on one object
+     reorder idx t        the genotype file t with its records (and GT / POP columns) in the order idx
+     with_haps t H        the input t with the .hap lines H;  same_line: same H line, V lines permuted
+     var5, zip_row, unzip_row   C04 records / label rows in the types of C05's model of population_array
+   ============================================================================================================ *)
+
+(* -- duplicate genotype IDs: the hypothesis "IDs are distinct" of the theorems above, discharged --------- *)
+
+(* what the transforms return when two records share an ID: ValueError (Genotypes.index), always *)
+Theorem C04_dup_ids_rejected : forall G,
+  dup_ids G = true ->
+  (forall h, hap_transform h G = Err E_Value /\ hap_transform_anc h G = Err E_Value)
+  /\ (forall H0, haps_transform H0 G = Err E_Value /\ haps_transform_anc H0 G = Err E_Value).
+Proof. exact dup_ids_rejected_lemma. Qed.
+Print Assumptions C04_dup_ids_rejected.
+
+(* closed form of the single transforms for EVERY genotype object and haplotype *)
+Theorem C04_single_closed_all : forall G (anc : bool) h,
+  single_tr anc h G =
+    if dup_ids G then Err E_Value
+    else if hap_okb G h then Ok (spec_col G anc h) else Err E_Value.
+Proof. exact single_tr_closed_all. Qed.
+Print Assumptions C04_single_closed_all.
+
+Theorem C04_set_closed_all : forall G (anc : bool) H0,
+  let H := real_haps H0 in
+  if dup_ids G then set_tr anc H0 G = Err E_Value
+  else if forallb (hap_okb G) H then set_tr anc H0 G = Ok (recs_of H, spec_mat G anc H)
+  else exists k, set_tr anc H0 G = Err k /\ (forallb (hap_presentb G) H = true -> k = E_Value).
+Proof. exact set_tr_closed_all. Qed.
+Print Assumptions C04_set_closed_all.
+
+(* "the answer is the same for a single haplotype and for the whole set", without any hypothesis *)
+Theorem C04_set_eq_single_all : forall G (anc : bool) H0 recs M,
+  set_tr anc H0 G = Ok (recs, M) ->
+  recs = recs_of (real_haps H0)
+  /\ forall i h, nth_error (real_haps H0) i = Some h -> single_tr anc h G = Ok (column_of M i).
+Proof. exact set_eq_single_all. Qed.
+Print Assumptions C04_set_eq_single_all.
+
+Theorem C04_vline_order_irrelevant_all : forall G (anc : bool) h h',
+  Permutation (h_vars h) (h_vars h') -> h_anc h = h_anc h' ->
+  single_tr anc h G = single_tr anc h' G.
+Proof. exact single_tr_perm_all. Qed.
+Print Assumptions C04_vline_order_irrelevant_all.
+
+(* -- operation sequences on ONE Haplotypes object ------------------------------------------------------------ *)
+
+(* sorted() with Variant.__lt__ / Haplotype.__lt__ (stable insertion) only permutes *)
+Theorem C04_sort_by_permutes : forall (A : Type) (lt : A -> A -> bool) l, Permutation l (sort_by lt l).
+Proof. exact @sort_by_perm. Qed.
+Print Assumptions C04_sort_by_permutes.
+
+(* After ANY history of sort / Haplotype.sort / subset / re-read, every haplotype of the collection gets from
+   the single-haplotype transform exactly the answer of the file's haplotype with that H line, and has the same
+   specification column (= its column in the whole-set answer, C04_set_closed_all): nothing may depend on an
+   earlier call.  For every genotype object and both ancestry modes. *)
+Theorem C04_history_irrelevant : forall file ops p,
+  In p (run_ops file file ops) ->
+  exists p0, In p0 file
+    /\ h_id (hap_of p) = h_id (hap_of p0) /\ h_chrom (hap_of p) = h_chrom (hap_of p0)
+    /\ h_start (hap_of p) = h_start (hap_of p0)
+    /\ forall G (anc : bool),
+         single_tr anc (hap_of p) G = single_tr anc (hap_of p0) G
+         /\ spec_col G anc (hap_of p) = spec_col G anc (hap_of p0)
+         /\ hap_okb G (hap_of p) = hap_okb G (hap_of p0).
+Proof. exact history_irrelevant_lemma. Qed.
+Print Assumptions C04_history_irrelevant.
+
+Theorem C04_set_after_history : forall file ops G (anc : bool),
+  dup_ids G = false ->
+  let H := real_haps (map hap_of (run_ops file file ops)) in
+  forallb (hap_okb G) H = true ->
+  set_tr anc (map hap_of (run_ops file file ops)) G = Ok (recs_of H, spec_mat G anc H).
+Proof. exact set_after_history_lemma. Qed.
+Print Assumptions C04_set_after_history.
+
+Example C04_history_example :
+  run_ops [ph_ex; rp_ex] [ph_ex; rp_ex] [OSort]
+  = [rp_ex; mkph (mkh 10 1 10 21 8 [] false) [mkpv 10 11 (mkhv 1 3); mkpv 20 21 (mkhv 4 7)]]
+  /\ run_ops [ph_ex; rp_ex] [ph_ex; rp_ex] [OSort; OSubset [10; 99]; OReread] = [ph_ex; rp_ex].
+Proof. exact history_example_lemma. Qed.
+Print Assumptions C04_history_example.
+
+(* soundness of the step checker evaluated after every operation: the observed collection consists of original
+   haplotypes, none twice, and the observed answers pass holds_api (C04_holds_api_sound) for them in that order *)
+Theorem C04_holds_step_sound : forall c o,
+  holds_step c o = true ->
+  exists H, map h_id H = so_order o
+    /\ NoDup (so_order o)
+    /\ (forall h, In h H -> exists p0, In p0 (q_H c) /\ h = hap_of p0)
+    /\ holds_api (mka (q_G c) H (q_anc c) (so_single o) (so_set o)) = true.
+Proof. exact holds_step_sound_lemma. Qed.
+Print Assumptions C04_holds_step_sound.
+
+Theorem C04_holds_seq_sound : forall c,
+  snd (check_seq c) = true ->
+  Forall (fun s : op * sobs => holds_step c (snd s) = true) (q_steps c).
+Proof. exact holds_seq_sound_lemma. Qed.
+Print Assumptions C04_holds_seq_sound.
+
+(* soundness of the cross-run checker: the run passes holds_file and its answer equals every answer of the other
+   runs on the same data (POP fields vs .bp file, VCF vs PGEN) *)
+Theorem C04_holds_filex_sound : forall c,
+  holds_filex c = true ->
+  holds_file (x_case c) = true
+  /\ forall out out', f_obs (x_case c) = Ok out -> In (Ok out') (x_peers c) -> out = out'.
+Proof. exact holds_filex_sound_lemma. Qed.
+Print Assumptions C04_holds_filex_sound.
+
+(* -- the .bp loading, closed with C05's model of Breakpoints.population_array ------------------------------- *)
+
+(* for EVERY list of records (any order; chromosomes interleaved or not) C05's population_array - chromosome
+   loop, boolean mask, searchsorted, scatter - on the .bp table returns the model's label matrix; errors included *)
+Theorem C04_bp_matrix_is_population_array : forall bp samples vs sm vm,
+  NoDup samples ->
+  C05_Model.population_array bp (map var5 vs) (Some samples)
+  = rmap (map zip_row) (ancestry_matrix false (BpFile bp) sm vm samples vs).
+Proof. exact bp_matrix_is_population_array_lemma. Qed.
+Print Assumptions C04_bp_matrix_is_population_array.
+
+Theorem C04_bp_matrix_from_population_array : forall bp samples vs sm vm arr,
+  NoDup samples ->
+  C05_Model.population_array bp (map var5 vs) (Some samples) = Ok arr ->
+  ancestry_matrix false (BpFile bp) sm vm samples vs = Ok (map unzip_row arr).
+Proof. exact bp_matrix_from_population_array_lemma. Qed.
+Print Assumptions C04_bp_matrix_from_population_array.
+
+(* C04_pop_bp_same composed with it: POP fields that hold population_array's answer for the file's samples and
+   records give the same transform_haps result as the .bp file *)
+Theorem C04_pop_bp_closed : forall t bp arr,
+  NoDup (t_samples t) ->
+  C05_Model.population_array bp (map var5 (t_vars t)) (Some (t_samples t)) = Ok arr ->
+  transform_haps (with_anc t (PopField (map unzip_row arr))) = transform_haps (with_anc t (BpFile bp)).
+Proof. exact pop_bp_closed_lemma. Qed.
+Print Assumptions C04_pop_bp_closed.
+
+(* re-ordering (any re-indexing of) the record list re-orders the columns of the matrix and nothing else *)
+Theorem C04_bp_matrix_reorder : forall bp samples vs sm vm sm' vm' m idx,
+  ancestry_matrix false (BpFile bp) sm vm samples vs = Ok m ->
+  (forall i, In i idx -> (i < length vs)%nat) ->
+  ancestry_matrix false (BpFile bp) sm' vm' samples (pick dgv idx vs) = Ok (map (pick_rows idx) m).
+Proof. exact bp_matrix_pick_lemma. Qed.
+Print Assumptions C04_bp_matrix_reorder.
+
+(* -- the model answers wherever the checker demands an answer ------------------------------------------------ *)
+
+Theorem C04_model_total : forall t,
+  wf_file t -> f_wellformed t = true -> transform_haps t = Ok (f_expected t).
+Proof. exact model_total_lemma. Qed.
+Print Assumptions C04_model_total.
+
+(* -- the order of the records of the genotype file is irrelevant ----------------------------------------------- *)
+
+Theorem C04_expected_gt_order_irrelevant : forall t idx,
+  wf_file t -> is_perm idx (length (t_vars t)) -> f_expected (reorder idx t) = f_expected t.
+Proof. exact expected_gt_order_irrelevant_lemma. Qed.
+Print Assumptions C04_expected_gt_order_irrelevant.
+
+Theorem C04_wf_file_reorder : forall t idx,
+  wf_file t -> is_perm idx (length (t_vars t)) -> wf_file (reorder idx t).
+Proof. exact wf_file_reorder_lemma. Qed.
+Print Assumptions C04_wf_file_reorder.
+
+(* the checker's verdict on ANY observed output is the same for every order of the records *)
+Theorem C04_holds_file_gt_order_irrelevant : forall t idx o w,
+  wf_file t -> is_perm idx (length (t_vars t)) ->
+  holds_file (mkf (reorder idx t) o w) = holds_file (mkf t o w).
+Proof. exact holds_file_gt_order_irrelevant_lemma. Qed.
+Print Assumptions C04_holds_file_gt_order_irrelevant.
+
+(* the model: the same result for every permutation of the genotype file's records *)
+Theorem C04_transform_haps_gt_order_irrelevant : forall t idx,
+  wf_file t -> f_wellformed t = true -> is_perm idx (length (t_vars t)) ->
+  transform_haps (reorder idx t) = transform_haps t.
+Proof. exact transform_haps_gt_order_total_lemma. Qed.
+Print Assumptions C04_transform_haps_gt_order_irrelevant.
+
+(* -- the layout of the .hap file is irrelevant (up to the order of the output records) -------------------------- *)
+
+Theorem C04_expected_vline_order_irrelevant : forall t H H',
+  Forall2 same_line H H' -> f_expected (with_haps t H) = f_expected (with_haps t H').
+Proof. exact expected_vline_order_irrelevant_lemma. Qed.
+Print Assumptions C04_expected_vline_order_irrelevant.
+
+Theorem C04_transform_haps_vline_order_irrelevant : forall t H H',
+  Forall2 same_line H H' -> wf_file (with_haps t H) -> f_wellformed (with_haps t H) = true ->
+  transform_haps (with_haps t H') = transform_haps (with_haps t H).
+Proof. exact transform_haps_vline_order_total_lemma. Qed.
+Print Assumptions C04_transform_haps_vline_order_irrelevant.
+
+(* each output column (record and cells) is a function of its own H line and the genotypes - f_column t h does not
+   mention the other lines - and the columns are those of the kept H lines in the order of the H lines: moving an
+   H line moves its column, nothing else changes *)
+Theorem C04_transform_haps_columnwise : forall t H,
+  wf_file (with_haps t H) -> f_wellformed (with_haps t H) = true ->
+  let cols := map (f_column t) (filter (f_keep t) H) in
+  transform_haps (with_haps t H)
+  = Ok (map fst cols, map fst (f_rows t),
+        map (fun k => map (fun c : (Z * Z * Z) * list (bool * bool) => nth k (snd c) (false, false)) cols)
+            (seq 0 (length (f_rows t)))).
+Proof. exact transform_haps_columnwise_lemma. Qed.
+Print Assumptions C04_transform_haps_columnwise.
+
+(* the hypotheses are satisfiable: two chromosomes interleaved in the genotype file, equal coordinates on both,
+   different ancestry there; the .bp run, the re-ordered file, C05's population_array and the POP-field run *)
+Example C04_interleaved_example :
+  wf_file t_inter /\ f_wellformed t_inter = true
+  /\ is_perm [2; 0; 3; 1]%nat (length (t_vars t_inter))
+  /\ transform_haps t_inter
+     = Ok ([(70, 1, 100); (71, 2, 100); (72, 2, 100)], [1; 2],
+           [[(true, false); (true, false); (false, false)]; [(false, false); (false, false); (true, false)]])
+  /\ transform_haps (reorder [2; 0; 3; 1]%nat t_inter) = transform_haps t_inter
+  /\ C05_Model.population_array bp_inter (map var5 (t_vars t_inter)) (Some (t_samples t_inter))
+     = Ok (map zip_row pop_inter)
+  /\ transform_haps (with_anc t_inter (PopField pop_inter)) = transform_haps t_inter.
+Proof. exact interleaved_example_lemma. Qed.
+Print Assumptions C04_interleaved_example.
